@@ -9,6 +9,8 @@ vlib/oracle_*.py.
 """
 from __future__ import print_function
 
+import json
+
 import numpy as np
 
 from vlib import model, gen
@@ -279,7 +281,12 @@ def gen_op(rng, T, v, cfg, families=None):
 
 def read(b, h, want_type=True):
     """Content handle -> Outcome(value)"""
-    d = b.describe(h)
+    txt = b.describe_text(h)
+    if '"c":"VirtualArray"' in txt:       # lazy results are read through their materialisation (C18)
+        from vlib import bridge_virtual
+        h = bridge_virtual.materialize(b, h)
+        txt = b.describe_text(h)
+    d = json.loads(txt)
     t = None
     if want_type and d["c"] not in ("None", "Record") and not d.get("scalar"):
         try:
